@@ -1,18 +1,290 @@
-"""Engine K — Kani on a scratch copy of the real crates (DESIGN.md 2.2).  Filled in with the `branching` group."""
+"""Engine K — Kani on a scratch copy of the real crates (DESIGN.md 2.2).
+
+A group is a directory /verif/kani/<group>/ with group.toml and harness files (*.rs) whose first line
+`//@append <repo-relative file>` names the source file they are appended to (only in the scratch copy; the harness
+modules are `#[cfg(kani)]`).  Results are cached per (tree hash, harness text hash): the same code and the same
+harness give the same verdict, so the property checks that share a group do not re-run CBMC.
+"""
+import fcntl
+import glob
+import json
 import os
+import re
+import subprocess
+import time
+import tomllib
 
-from .common import VERIF, Undecided
+from .common import REPO, SCRATCH_ROOT, VERIF, Undecided, log, read, rmtree, run, sha, write
 
-GROUPS = {}   # name -> config, registered below when kani/<group>/group.toml exists
-
-
-def groups_for(pid, tier):
-    return []
-
-
-def run_group(group, pid, tier):
-    raise Undecided("no kani group")
+KANI_DIR = os.path.join(VERIF, "kani")
 
 
 def all_groups():
-    return {}
+    out = {}
+    for p in sorted(glob.glob(os.path.join(KANI_DIR, "*", "group.toml"))):
+        with open(p, "rb") as f:
+            cfg = tomllib.load(f)
+        if cfg.get("disabled"):
+            continue
+        out[os.path.basename(os.path.dirname(p))] = cfg
+    return out
+
+
+def groups_for(pid, tier):
+    return [g for g, cfg in all_groups().items() if pid in cfg.get("properties", [])]
+
+
+class KFailure:
+    """Same interface as verus.Failure so that known findings / replay files work uniformly."""
+
+    def __init__(self, group, harness, desc, loc_file, loc_line, loc_fn, tags, rendered):
+        self.unit = "kani/" + group
+        self.fn = harness
+        self.kind = "kani-check"
+        self.anchor = desc
+        self.clause = f"{loc_file}:{loc_fn}"
+        self.tags = tags
+        self.rendered = rendered
+        self.repo_file = loc_file
+        self.repo_line = loc_line
+        self.playback = ""
+
+    @property
+    def obligation(self):
+        return f"{self.unit}/{self.fn}/{self.kind}@{self.anchor} :: {self.clause}"
+
+    @property
+    def expr_hash(self):
+        return sha(re.sub(r"\s+", " ", self.anchor) + "|" + re.sub(r"\s+", " ", self.clause))[:12]
+
+
+class GroupResult:
+    def __init__(self, group):
+        self.group = group
+        self.failures = []
+        self.undecided = []
+        self.checks_total = 0
+        self.checks_failed = 0
+        self.bounded = []
+        self.samples = []
+        self.assumptions = []
+        self.harness_results = {}
+        self.wall = 0.0
+        self.cmd = ""
+
+    def evidence(self):
+        return {"engine": "K", "harnesses": self.harness_results, "checker_cmd": self.cmd,
+                "cbmc_checks": self.checks_total, "cbmc_failed": self.checks_failed, "wall_s": round(self.wall, 1),
+                "bounded": self.bounded}
+
+
+def tree_hash():
+    """Hash of /repo's current working tree (tracked content incl. modifications + untracked source files)."""
+    rc, head, _, _ = run(["git", "-C", REPO, "rev-parse", "HEAD"])
+    rc, diff, _, _ = run(["git", "-C", REPO, "diff", "HEAD", "--", "."])
+    rc, untracked, _, _ = run(["git", "-C", REPO, "ls-files", "-o", "--exclude-standard"])
+    h = head.strip() + sha(diff)
+    for f in untracked.split("\n"):
+        f = f.strip()
+        if f.endswith(".rs") or f.endswith(".toml"):
+            try:
+                h += sha(open(os.path.join(REPO, f), "rb").read())
+            except OSError:
+                pass
+    return sha(h)[:16]
+
+
+def _harness_files(group):
+    out = []
+    for p in sorted(glob.glob(os.path.join(KANI_DIR, group, "*.rs"))):
+        txt = read(p)
+        m = re.match(r"//@append (\S+)\n", txt)
+        if not m:
+            raise Undecided(f"kani/{group}: {os.path.basename(p)} lacks the //@append header")
+        out.append((m.group(1), txt[m.end():]))
+    return out
+
+
+def _prepare(group, key):
+    d = os.path.join(SCRATCH_ROOT, f"kani-{group}-{key}")
+    marker = os.path.join(d, ".prepared")
+    if os.path.exists(marker):
+        return d
+    # drop older copies of this group (disk space)
+    for old in glob.glob(os.path.join(SCRATCH_ROOT, f"kani-{group}-*")):
+        if old != d:
+            rmtree(old)
+    os.makedirs(d, exist_ok=True)
+    rc, out, err, _ = run(["rsync", "-a", "--delete", "--exclude", "target", "--exclude", ".git", REPO + "/", d + "/repo/"])
+    if rc != 0:
+        raise Undecided(f"kani/{group}: rsync failed: {err[-300:]}")
+    for rel, txt in _harness_files(group):
+        p = os.path.join(d, "repo", rel)
+        if not os.path.exists(p):
+            raise Undecided(f"lost anchor: kani/{group}: {rel} does not exist")
+        with open(p, "a", encoding="utf-8") as f:
+            f.write("\n" + txt)
+    write(marker, "ok")
+    return d
+
+
+RES_RE = re.compile(r"\*\* (\d+) of (\d+) failed")
+
+
+def _parse(out):
+    """terse output with -j: per thread blocks."""
+    cur = {}
+    results = {}
+    lines = out.split("\n")
+    i = 0
+    thread = None
+    while i < len(lines):
+        l = lines[i]
+        m = re.match(r"(?:Thread (\d+): )?Checking harness (\S+?)\.\.\.", l)
+        if m:
+            cur[m.group(1) or "0"] = m.group(2).split("::")[-1]
+            i += 1
+            continue
+        m = re.match(r"Thread (\d+):\s*$", l)
+        if m:
+            thread = m.group(1)
+            i += 1
+            continue
+        if l.startswith("VERIFICATION RESULT:") or l.startswith("SUMMARY:"):
+            h = cur.get(thread if thread is not None else "0")
+            rec = {"failed": 0, "total": 0, "status": "?", "failed_checks": []}
+            i += 1
+            while i < len(lines) and not lines[i].startswith("VERIFICATION:-"):
+                m2 = RES_RE.search(lines[i])
+                if m2:
+                    rec["failed"], rec["total"] = int(m2.group(1)), int(m2.group(2))
+                m3 = re.match(r"Failed Checks: (.*)", lines[i])
+                if m3:
+                    desc = m3.group(1).strip()
+                    loc = ("", 0, "")
+                    if i + 1 < len(lines):
+                        m4 = re.match(r'\s*File: "([^"]+)", line (\d+), in (.*)', lines[i + 1])
+                        if m4:
+                            loc = (m4.group(1), int(m4.group(2)), m4.group(3).strip())
+                    rec["failed_checks"].append((desc, loc))
+                i += 1
+            if i < len(lines):
+                rec["status"] = "SUCCESSFUL" if "SUCCESSFUL" in lines[i] else "FAILED"
+            if h:
+                results[h] = rec
+            i += 1
+            continue
+        i += 1
+    return results
+
+
+def _run_harness(cmd, cwd, timeout):
+    """One harness in its own process group so that CBMC children can be killed on timeout."""
+    import signal
+    env = dict(os.environ)
+    env["CARGO_NET_OFFLINE"] = "true"
+    p = subprocess.Popen(cmd, cwd=cwd, env=env, stdout=subprocess.PIPE, stderr=subprocess.STDOUT, text=True,
+                         start_new_session=True)
+    try:
+        out, _ = p.communicate(timeout=timeout)
+        return "done", out
+    except subprocess.TimeoutExpired:
+        try:
+            os.killpg(p.pid, signal.SIGKILL)
+        except ProcessLookupError:
+            pass
+        try:
+            out, _ = p.communicate(timeout=10)
+        except Exception:
+            out = ""
+        return "timeout", out or ""
+
+
+def run_group(group, pid, tier):
+    cfg = all_groups()[group]
+    t0 = time.time()
+    res = GroupResult(group)
+    hdefs = {h["name"]: h for h in cfg.get("harness", [])}
+    wanted = [h["name"] for h in cfg.get("harness", []) if tier == "thorough" or h.get("tier", "quick") == "quick"]
+    htext = sha("".join(t for _, t in _harness_files(group)))[:12]
+    key = tree_hash() + "-" + htext
+    os.makedirs(SCRATCH_ROOT, exist_ok=True)
+    lockf = open(os.path.join(SCRATCH_ROOT, f"kani-{group}.lock"), "w")
+    fcntl.flock(lockf, fcntl.LOCK_EX)
+    try:
+        d = _prepare(group, key)
+        cache_p = os.path.join(d, "results.json")
+        cache = json.load(open(cache_p)) if os.path.exists(cache_p) else {}
+        todo = [h for h in wanted if h not in cache or cache[h].get("status") == "NO-RESULT"]
+        if todo:
+            base = ["cargo", "kani", "-p", cfg.get("package", "pumpkin-solver")] + cfg.get("target_args", ["--lib"])
+            res.cmd = ("CARGO_NET_OFFLINE=true " + " ".join(base) + " --harness <h> --output-format terse   (one process per "
+                       "harness, in a scratch copy of /repo with kani/" + group + "/*.rs appended)")
+            repo_d = os.path.join(d, "repo")
+            # warm the build once so that the per-harness processes only run CBMC
+            rc, out, err, wall = run(base + ["--only-codegen"], cwd=repo_d, timeout=1800)
+            allout = out + "\n" + err
+            if rc != 0 and ("could not compile" in allout or "error[E" in allout or "error:" in allout):
+                errs = [l for l in allout.split("\n") if l.startswith("error")]
+                raise Undecided(f"kani/{group}: harness does not compile against the current tree "
+                                f"(changed interface?): {' | '.join(errs[:3])[:400]}")
+
+            def one(h):
+                to = hdefs[h].get("timeout_s", cfg.get("harness_timeout_s", 240))
+                return h, _run_harness(base + ["--harness", h, "--output-format", "terse"], repo_d, to)
+
+            import concurrent.futures as cf
+            with cf.ThreadPoolExecutor(max_workers=cfg.get("jobs", 6)) as ex:
+                for h, (status, allout) in ex.map(one, todo):
+                    parsed = _parse(allout)
+                    if status == "timeout":
+                        cache[h] = {"status": "NO-RESULT", "failed": 0, "total": 0, "failed_checks": [], "why": "timeout"}
+                    elif h in parsed:
+                        cache[h] = parsed[h]
+                    elif "could not compile" in allout or "error[E" in allout:
+                        errs = [l for l in allout.split("\n") if l.startswith("error")]
+                        raise Undecided(f"kani/{group}: harness does not compile against the current tree: {' | '.join(errs[:3])[:400]}")
+                    else:
+                        cache[h] = {"status": "NO-RESULT", "failed": 0, "total": 0, "failed_checks": [], "why": allout[-300:]}
+            json.dump(cache, open(cache_p, "w"))
+        else:
+            res.cmd = "(cached for this tree) cargo kani -p pumpkin-solver --lib --harness <h> --output-format terse"
+    finally:
+        fcntl.flock(lockf, fcntl.LOCK_UN)
+        lockf.close()
+    for h in wanted:
+        rec = cache[h]
+        hd = hdefs[h]
+        kind = hd.get("kind", "complete")
+        res.harness_results[h] = {"status": rec["status"], "checks": rec["total"], "failed": rec["failed"], "kind": kind,
+                                  "bound": hd.get("bound", "")}
+        if rec["status"] == "NO-RESULT":
+            res.undecided.append(f"harness {h}: no result (resource limit / tool failure)")
+            continue
+        res.checks_total += rec["total"]
+        res.checks_failed += rec["failed"]
+        if kind == "bounded":
+            res.bounded.append(f"kani/{group}/{h}: {hd.get('bound', 'bounded')}")
+        res.samples.append(f"kani/{group}/{h}: {hd.get('what', '')} [{kind}] {rec['total']} CBMC checks, {rec['status']}")
+        for desc, loc in rec["failed_checks"]:
+            tags = list(hd.get("properties", cfg.get("properties", [])))
+            if "overflow" in desc or "attempt to" in desc:
+                tags = sorted(set(cfg.get("arith_properties", ["C16"])) | set(hd.get("overflow_also", [])))
+            f = KFailure(group, h, desc, loc[0], loc[1], loc[2], tags,
+                         f"Kani harness {h}: failed check `{desc}` at {loc[0]}:{loc[1]} in {loc[2]}")
+            res.failures.append(f)
+    res.assumptions = [f"kani/{group}: {a}" for a in cfg.get("trusted", [])]
+    res.wall = time.time() - t0
+    return res
+
+
+def concrete_playback(group, harness):
+    """Ask Kani for a concrete counterexample of a failing harness (used for the replay file)."""
+    cfg = all_groups()[group]
+    htext = sha("".join(t for _, t in _harness_files(group)))[:12]
+    d = _prepare(group, tree_hash() + "-" + htext)
+    cmd = ["cargo", "kani", "-p", cfg.get("package", "pumpkin-solver")] + cfg.get("target_args", ["--lib"]) + \
+          ["--harness", harness, "-Z", "concrete-playback", "--concrete-playback=print", "--output-format", "terse"]
+    rc, out, err, wall = run(cmd, cwd=os.path.join(d, "repo"), timeout=900)
+    m = re.search(r"Concrete playback unit test for `[^`]*`:\s*```(.*?)```", out + err, re.S)
+    return (m.group(1).strip() if m else ""), " ".join(cmd)
